@@ -256,6 +256,9 @@ func (e *SpecEnv) ident(name string) Val {
 			return e.constVal(c)
 		}
 	}
+	if to, ok := e.fx.rename[name]; ok && to != name {
+		return e.ident(to)
+	}
 	sfail("unknown identifier %q", name)
 	return Val{}
 }
